@@ -41,6 +41,26 @@ Theorem C05_push_memory_complete :
 Proof. exact mem_push_complete. Qed.
 Print Assumptions C05_push_memory_complete.
 
+(* the same for ioutil.CopyBuffer with every buffer size >= 1, and for an OCI layout
+   that does not hold the digest yet *)
+Theorem C05_copybuffer_complete :
+  forall (H : str -> str -> str) comb fuel evs bufsz dg,
+    (1 <= bufsz)%nat -> nfail evs = 0%nat -> valid_digest dg = true ->
+    dg = digest_of H (alg_of dg) (stream evs) -> (ev_weight evs < fuel)%nat ->
+    fst (copy_buffer H comb true fuel (mkBase evs None) bufsz dg (Z.of_nat (length (stream evs))))
+    = (None, stream evs).
+Proof. exact copy_buffer_complete. Qed.
+Print Assumptions C05_copybuffer_complete.
+
+Theorem C05_push_oci_complete :
+  forall (H : str -> str -> str) comb fuel s d evs,
+    oci_get s (d_dg d) = None -> nfail evs = 0%nat -> valid_digest (d_dg d) = true ->
+    d_dg d = digest_of H (alg_of (d_dg d)) (stream evs) -> d_sz d = Z.of_nat (length (stream evs)) ->
+    (ev_weight evs < fuel)%nat ->
+    oci_push H comb true fuel s d (mkBase evs None) = (None, (d_dg d, stream evs) :: s).
+Proof. exact oci_push_complete. Qed.
+Print Assumptions C05_push_oci_complete.
+
 (* FetchAll = Fetch then ReadAll: whatever bytes a store's Fetch serves (even a blob
    corrupted on disk), FetchAll returns them only if they match the descriptor *)
 Theorem C05_fetchall :
@@ -281,3 +301,11 @@ Example C05_ex_concurrent :
   | None => False
   end.
 Proof. vm_compute. split; reflexivity. Qed.
+
+(* the hypotheses of the completeness theorems hold for a chunked reader with 0-byte reads *)
+Example C05_ex_complete_hypotheses :
+  let evs := [Zero; Data [1;2]; Zero; Data [3]; Zero] in
+  nfail evs = 0%nat /\ valid_digest (toy_dg (stream evs)) = true /\
+  toy_dg (stream evs) = digest_of toyH (alg_of (toy_dg (stream evs))) (stream evs) /\
+  fst (copy_buffer toyH true true 20 (mkBase evs None) 1 (toy_dg (stream evs)) 3) = (None, [1;2;3]).
+Proof. vm_compute. repeat split; reflexivity. Qed.
